@@ -151,6 +151,14 @@ protected:
     chunk.c_chunk = 0;
     chunk.c_valid = 0;
     chunk.b_remain = maxcomplength;
+    {
+      // Never read beyond the sequence (its end closes the positional index):
+      // the last header is followed by padding
+      size_t end = blStrings->getField(blStrings->getNumberOfElements() - 1);
+      size_t left = end - (chunk.b_ptr - ptr);
+      if (left < chunk.b_remain)
+        chunk.b_remain = left;
+    }
 
     // Variables used for adjusting purposes
     uint plen = 0;
